@@ -240,15 +240,83 @@ def case_fn(ctx, case):
                           f'config "{name}" context {ctxkinds}: cache key {FLAG_KEY[k]!r} present')
 
 
+def later_script_case(ctx, case):
+    """plugins and contracts given to run_auth_scripts govern every script of the list, not only the first"""
+    ci, ctxkinds, pos = case
+    seed = ctx.seed
+    pr, ro, now = probes(seed)
+    name, pname, flags, mode, prefix = configurations(seed)[ci]
+    env.Clock.now = now
+    script = build(ctxkinds, prefix + pr[pname], seed)
+    filler = P(b'\x55') + op('POP0')
+    scripts = [filler] * pos + [script] + [filler] * (2 - pos)
+    ctx.state(('later', ci, ctxkinds, pos))
+    contracts = dict(stepspace.CONTRACTS)
+    plugins, counter, ct = {}, None, None
+    glob = []
+    if mode in ('run', 'global'):
+        counter = Counter()
+        if mode == 'run':
+            plugins['signature_extensions'] = [counter]
+        else:
+            F.add_signature_extension(counter)
+            glob.append(lambda: F.remove_signature_extension(counter))
+    if mode in ('ct-run', 'ct-global'):
+        ct = [ct_ref]
+        if mode == 'ct-run':
+            plugins['check_template'] = [ct_plugin]
+        else:
+            F.add_plugin('check_template', ct_plugin)
+            glob.append(lambda: F.remove_plugin('check_template', ct_plugin))
+    run_contracts = contracts
+    if mode == 'contract-global':
+        F.add_contract(b'c1', contracts[b'c1'])
+        glob.append(lambda: F.remove_contract(b'c1'))
+        run_contracts = {}
+    env.Rand.reset(b'diff')
+    try:
+        try:
+            v = F.run_auth_scripts(scripts, dict(ro), run_contracts, plugins, stack_max_items=LIMITS[0],
+                                   stack_max_item_size=LIMITS[1], callstack_limit=LIMITS[2])
+        except BaseException as e:
+            v = e
+    finally:
+        for g in glob:
+            g()
+    from mc.diff import run_ref
+    ref, e = run_ref(scripts, ro, None, None, LIMITS, contracts, now, ct_plugins=ct)
+    ctx.ran(2)
+    ctx.trans(3)
+    if ref[0] == 'unspec':
+        ctx.unspec(ref[1])
+        return
+    want = ref[0] == 'ok' and len(ref[1]) == 1 and bytes(ref[1][0]) == b'\xff' and type(ref[1][0]).__name__ != 'Wild'
+    sigbase = {'config': name.split(' ')[0] + ' ' + name.split(' ')[1], 'where': 'script %d of run_auth_scripts' % (pos + 1)}
+    ctx.outcome('auth:%s' % v)
+    if v is not want and not (ref[0] == 'ok' and any(type(x).__name__ == 'Wild' for x in ref[1])):
+        ctx.violation({**sigbase, 'why': 'verdict', 'probe': pname}, f'config "{name}" context {ctxkinds} position {pos}: {v!r}, reference {want}')
+    if counter is not None and (ref[0] == 'ok'):
+        if counter.n != e.sigext_calls:
+            ctx.violation({**sigbase, 'why': 'plugin call count', 'probe': pname},
+                          f'config "{name}" context {ctxkinds} position {pos}: plugin ran {counter.n} times, reference executed '
+                          f'{e.sigext_calls} signature-related instructions')
+
+
 def blocks(tier, seed):
     q = tier == 'quick'
     depth = 2 if q else 3
     ncfg = len(configurations(seed))
     cs = list(contexts(depth))
     cases = [(ci, c) for c in cs for ci in range(ncfg)]
+    cfgs = configurations(seed)
+    later_cfg = [i for i, c in enumerate(cfgs) if c[3] is not None or c[0].startswith('contract') or c[0].startswith('all flags on')]
+    later = [(ci, c, pos) for c in contexts(1 if q else 2) for ci in later_cfg for pos in (0, 1, 2)]
     return [Block('contexts_x_configurations', cases, case_fn,
                   'every nesting context of depth <= %d over %d kinds (%d contexts) x %d (configuration, probe) pairs'
-                  % (depth, len(KINDS), len(cs), ncfg), nshards=128)]
+                  % (depth, len(KINDS), len(cs), ncfg), nshards=128),
+            Block('later_scripts_of_run_auth_scripts', later, later_script_case,
+                  'plugin / contract configurations x contexts of depth <= %d x probe in script 1, 2 or 3 of a run_auth_scripts list'
+                  % (1 if q else 2), nshards=64)]
 
 
 def meta(tier, seed):
